@@ -142,8 +142,12 @@ def autoRank (proj : Project) : List Nat :=
             | none => [])
          | _ => []) ++ go cp rest
     go [] (bodyOf proj m)
+  -- the packages above a target are entered first (`aboveOk`)
+  let tgA (m : Nat) : List Nat :=
+    (tg m).flatMap fun t => t :: (List.range proj.length).filter fun P =>
+      isProperPrefix (pathOf proj P) (pathOf proj t) && P != m
   let step (r : List Nat) : List Nat :=
-    (List.range proj.length).map fun m => ((tg m).map fun t => r.getD t 0 + 1).foldl max 0
+    (List.range proj.length).map fun m => ((tgA m).map fun t => r.getD t 0 + 1).foldl max 0
   (List.range proj.length).foldl (fun r _ => step r) (List.replicate proj.length 0)
 
 def handle (args : List String) : String :=
